@@ -23,7 +23,7 @@ ASSUMPTIONS = [
     "malformed searches: only weak invariants (typed results, no duplicates, no '?', only SpilException)",
     "when a filter fits several types of which none is the form's type, any of those types is accepted (search Sids, C04 statement)",
     "the leaf key used for '**' is the one configured for the basetype of the root before '**'",
-    "do_extrapolate=True (not defined by the statement): only 'result strings are a superset of the plain unfolding's, every element is typed and query-free'",
+    "do_extrapolate=True (not defined by the statement): only 'result strings are a superset of the plain unfolding's, every typable /-prefix of a plain result is present (documented: intermediate types are included), every element is typed and query-free'",
 ]
 
 
@@ -128,6 +128,15 @@ def evaluate(case) -> Outcome:
         strings2 = {str(r) for r in res2}
         if not strings <= strings2:
             out.add("C07/extrapolate/not-superset", f"unfold_search({s!r}, do_extrapolate=True) lacks strings {sorted(strings - strings2)}")
+        # documented: "all intermediate types are included in the result (the upstream hierarchy)":
+        # every '/'-prefix of a plain result that the configuration can type is present
+        for x in sorted(strings):
+            segs_x = x.split("/")
+            for kk in range(1, len(segs_x)):
+                pre = "/".join(segs_x[:kk])
+                if pre not in strings2 and m.type_first(pre)[0]:
+                    out.add("C07/extrapolate/intermediate-level-missing", f"unfold_search({s!r}, do_extrapolate=True) lacks the level {pre!r} above {x!r}: {sorted(strings2)}")
+                    break
         for r in res2:
             if not r or "?" in str(r):
                 out.add("C07/extrapolate/invalid-element", f"unfold_search({s!r}, do_extrapolate=True) contains {r!r}")
